@@ -6,7 +6,8 @@ Case = {"cfg": "graph"|"sgraph"|"cg"|"nest", "two": bool, "init": [[s,p,o,c]…]
                 | ["bind",w,pfx,ns,override] | ["pass",w,kind]                      (round g: pass-through, not logged)
                 | ["triples",w,s,p,o,c] | ["len",w,c] | ["ctxs",w] | ["tctx",w,s,p,o] | ["ns",w]   (round g: reads through the wrapper)]}
 route (round g): absent = through Graph / ConjunctiveGraph objects as before; "store" = the wrapper's own add()/remove();
-"ident" = ConjunctiveGraph quad whose graph is given as an identifier, not a Graph object.
+"ident" = ConjunctiveGraph quad whose graph is given as an identifier, not a Graph object; "ctxobj" = through the Graph object that
+ConjunctiveGraph.contexts() (= AuditableStore.contexts()) hands out for that name, when there is one.
 cfg "nest" (round g): ConjunctiveGraph over AuditableStore(AuditableStore(Memory)); wrapper 0 = outer (all operations),
 wrapper 1 = inner (commit / rollback behind the outer wrapper's back).
 Terms are small integers (vocabulary below, falsy literals included); graph names 90…93 (93 = the name rdflib gives a graph requested as <>).
@@ -80,7 +81,7 @@ def gen_case(rng, tier, i):
     def route():
         if cfg == "sgraph":
             return []
-        r_ = rng.choice([None, None, "store", "ident"] if cfg in ("cg", "nest") else [None, None, "store"])
+        r_ = rng.choice([None, None, "store", "ident", "ctxobj"] if cfg in ("cg", "nest") else [None, None, "store"])
         return [r_] if r_ else []
 
     def known(kinds):
@@ -281,6 +282,17 @@ def run_impl(case):
     def ctx_of(st, c):
         return None if c is None else Graph(store=st, identifier=gn[c])
 
+    def handed_out(top, c):
+        """the Graph object contexts() hands out for the name (written through inside the transaction)"""
+        for g_ in top.contexts():
+            if g_.identifier == gn[c]:
+                return g_
+        return top.get_context(gn[c])
+
+    for st_ in sts:
+        if not (st_.transaction_aware is True and st_.formula_aware is False and st_.context_aware == mem.context_aware):
+            viol.append("flags: AuditableStore must be transaction aware, not formula aware, and context aware as the wrapped store is")
+
     for k, op in enumerate(case["ops"]):
         kind, w = op[0], op[1]
         top = tops[w]
@@ -362,6 +374,8 @@ def run_impl(case):
                 top.add((t(s), t(p), t(o)))
             elif route == "ident":
                 top.add((t(s), t(p), t(o), gn[c]))
+            elif route == "ctxobj":
+                handed_out(top, c).add((t(s), t(p), t(o)))
             elif k % 2 == 0:
                 top.add((t(s), t(p), t(o), top.get_context(gn[c])))
             else:
@@ -418,6 +432,8 @@ def run_impl(case):
                 top.remove((t(s), t(p), t(o)))
             elif route == "ident":
                 top.remove((t(s), t(p), t(o), gn[c]))
+            elif route == "ctxobj":
+                handed_out(top, c).remove((t(s), t(p), t(o)))
             elif k % 2 == 0:
                 top.remove((t(s), t(p), t(o), top.get_context(gn[c])))
             else:
